@@ -908,3 +908,221 @@ def run(tier: str) -> int:
     chk.cov["rule"] = RULE
     chk.assumptions += ASSUMPTIONS
     return chk.finish()
+
+
+# ------------------------------------------------------------------ replay of a stored violation
+def replay(path: str) -> int:
+    env()
+    d = json.load(open(path))
+    case = d["case"]
+    set_ctx(case["ctx"])
+    kind = case.get("kind")
+    if kind == "replay":
+        fake = {"args": case["args"], "invalid": case["invalid"], "texts": [[case["text"]]], "expect": case["expect"],
+                "devs": case.get("devs", []), "lenient": [False]}
+        styles = [{"slash": case["text"].rstrip().endswith("/")}]
+        fails = [f for f in check_case(fake, styles, 1) if f.get("path") == case["path"]]
+        print(json.dumps({"text": case["text"], "path": case["path"], "failures": fails}, indent=1, default=repr))
+        return 1 if fails else 0
+    if kind == "trace":
+        st = case["style"]
+        obs = observe(case["path"], case["text"], st["slash"])
+        print(json.dumps({"text": case["text"], "path": case["path"], "observed_now": show(obs),
+                          "recorded": d["detail"]}, indent=1, default=repr))
+        w = workdir("c02rp")
+        hcfg = w / "h.cfg"
+        write_cfg(hcfg, (1, 1, 1, 1, 1, False, False), 1, NSTYLES, ["Export"])
+        tlc.require_ok(tlc.run("MC_C02", str(hcfg), env={"OUT": str(w / "h.ndjson")}, workers=1), "MC_C02 header")
+        header, _ = read_cases(str(w / "h.ndjson"))
+        set_ctx(header["ctx"])
+        strtab, tpltab = header["strtab"], header["tpltab"]
+        lv = []
+        for k, can in dict.fromkeys((k, tuple(c)) for k, c in leaves_of(case["args"], header["canon"], strtab, tpltab)):
+            val = stock_leaf("".join(can)) if k == "leaf" else stock_render("".join(can))
+            lv.append({"kind": k, "canon": list(can), "val": typed(val)})
+        rec = {"id": 1, "args": case["args"], "style": st, "text": text_of(case["args"], st, strtab, tpltab), "lv": lv,
+               "probe": obs_record(observe("probe", case["text"], st["slash"])),
+               "comp": obs_record(observe("comp", case["text"], st["slash"]))}
+        f = w / "one.ndjson"
+        tlc.write_ndjson(f, [rec])
+        cfg = w / "trace.cfg"
+        cfg.write_text("SPECIFICATION TrSpec\n")
+        r = tlc.require_ok(tlc.run("Trace_C02", str(cfg), env={"IN": str(f)}, workers=1), "Trace_C02")
+        v = _verdicts(r, 1)[1]
+        print("TLC verdict:", v or "ACCEPT")
+        return 0 if v is None else 1
+    print(f"unknown case kind {kind!r}")
+    return 2
+
+
+# ------------------------------------------------------------------ selftest
+def selftest(tier: str) -> int:
+    """In-process mutation probes (monkeypatched library functions; /repo is never touched)."""
+    from contextlib import ExitStack, contextmanager
+    from .core import run_probes
+    env()
+    import django_components.expression as dexpr
+    import django_components.node as dnode
+    import django_components.util.tag_parser as tp
+    import django_components.util.template_parser as tpar
+    import django_components.util.template_tag as ttag
+    import django_components.util.django_monkeypatch as dmp
+    from django.template.base import VariableNode
+
+    @contextmanager
+    def patch(obj, name, new):
+        old = getattr(obj, name)
+        setattr(obj, name, new)
+        try:
+            yield
+        finally:
+            setattr(obj, name, old)
+
+    def many(*ps):
+        @contextmanager
+        def cm():
+            with ExitStack() as st:
+                for p in ps:
+                    st.enter_context(patch(*p))
+                yield
+        return cm
+
+    orig_resolve = tp.TagValueStruct.resolve
+
+    def list_spread_appends(self, context):
+        # `[*xs]` appends the list instead of extending with its items
+        if self.type == "list":
+            self.compile()
+            return [e.resolve(context) for e in self.entries]
+        return orig_resolve(self, context)
+
+    def dict_first_key_wins(self, context):
+        r = orig_resolve(self, context)
+        if self.type == "dict":
+            self.compile()
+            out, pair = {}, []
+            for e in self.entries:
+                v = e.resolve(context)
+                spread = (isinstance(e, tp.TagValueStruct) and e.spread) or (isinstance(e, tp.TagValue) and e.is_spread)
+                if spread:
+                    for k2, v2 in v.items():
+                        out.setdefault(k2, v2)
+                else:
+                    pair.append(v)
+                    if len(pair) == 2:
+                        out.setdefault(pair[0], pair[1])
+                        pair = []
+            return out
+        return r
+
+    def agg_rsplit(params):
+        # aggregate key split at the LAST colon: attrs:my_key:two -> {"attrs:my_key": {"two": ..}}
+        out, nested = [], {}
+        for p in params:
+            if p.key is None or not dexpr.is_aggregate_key(p.key):
+                out.append(p)
+                continue
+            pre, key = p.key.rsplit(":", 1)
+            nested.setdefault(pre, {})[key] = p.value
+        for k, v in nested.items():
+            out.append(ttag.TagParam(key=k, value=v))
+        return out
+
+    orig_part_ser = tp.TagValuePart.serialize
+
+    def always_double_quotes(self):
+        if self.quoted:
+            old = self.quoted
+            self.quoted = '"'
+            try:
+                return orig_part_ser(self)
+            finally:
+                self.quoted = old
+        return orig_part_ser(self)
+
+    orig_dyn_resolve = dexpr.DynamicFilterExpression.resolve
+
+    def dyn_always_string(self, context):
+        # single-node passthrough lost: "{{ x }}" arrives as text
+        from django.template import NodeList
+        return NodeList(dexpr.StringifiedNode(n) for n in self.nodelist).render(context)
+
+    def dyn_only_var_tags(value):
+        return isinstance(value, str) and len(value) >= 6 and value[0] in "'\"" and value[-1] == value[0] and "{{" in value
+
+    def plain_lexer(text):
+        # `%}` inside a quoted string ends the tag (the quote-aware scanner is skipped)
+        from django.template.base import DebugLexer
+        return DebugLexer(text).tokenize()
+
+    orig_validate = dnode.validate_params
+
+    def drop_special_kwargs(func, sig, tag, params, extra_kwargs=None):
+        return orig_validate(func, sig, tag, params, None)
+
+    orig_compile = tp.TagValue.compile
+
+    def spread_offset_one(self, parser):
+        # strips one character of the spread token only: `**d` is compiled as `*d`
+        if self.compiled is None and self.is_spread:
+            from django.template.base import FilterExpression
+            self.compiled = FilterExpression(self.serialize()[1:], parser)
+            return
+        return orig_compile(self, parser)
+
+    orig_parse_tag = ttag.parse_tag
+
+    def newline_not_whitespace(text, parser):
+        # the scanner only knows blanks and tabs; line breaks glue words together
+        with patch(tp, "TAG_WHITESPACE", (" ", "\t")):
+            return orig_parse_tag(text, parser)
+
+    orig_resolve_params = ttag.resolve_params
+
+    def spread_keeps_first(tag, params, context):
+        # right-most does not win inside literals is covered above; here: a spread dict's
+        # entries are added as ONE positional dict when it is the last argument
+        out = orig_resolve_params(tag, params, context)
+        if params and params[-1].value.spread and params[-1].value.type == "dict":
+            keys = set(params[-1].value.resolve(context).keys())
+            out = [p for p in out if p.key not in keys]
+        return out
+
+    def strip_filter_ws(self):
+        # serialisation of a filter part forgets the `:` / `|` prefix when the value is quoted
+        value = f"{self.quoted}{self.value}{self.quoted}" if self.quoted else self.value
+        if self.translation:
+            value = f"_({value})"
+        elif self.spread:
+            value = f"{self.spread}{value}"
+        if self.filter and not (self.quoted and self.filter == ":"):
+            value = f"{self.filter}{value}"
+        return value
+
+    probes = [
+        ("list-spread-appends", many((tp.TagValueStruct, "resolve", list_spread_appends))),
+        ("dict-first-duplicate-wins", many((tp.TagValueStruct, "resolve", dict_first_key_wins))),
+        ("aggregate-split-at-last-colon", many((ttag, "process_aggregate_kwargs", agg_rsplit))),
+        ("serialize-always-double-quotes", many((tp.TagValuePart, "serialize", always_double_quotes))),
+        ("nested-template-always-string", many((dexpr.DynamicFilterExpression, "resolve", dyn_always_string))),
+        ("nested-template-only-var-tags", many((tp, "is_dynamic_expression", dyn_only_var_tags))),
+        ("percent-brace-in-string-ends-tag", many((dmp, "parse_template", plain_lexer), (dexpr, "parse_template", plain_lexer))),
+        ("special-char-kwargs-dropped", many((dnode, "validate_params", drop_special_kwargs))),
+        ("spread-token-offset-one", many((tp.TagValue, "compile", spread_offset_one))),
+        ("newline-not-whitespace", many((ttag, "parse_tag", newline_not_whitespace))),
+        ("last-spread-dict-dropped", many((dnode, "resolve_params", spread_keeps_first))),
+        ("filter-arg-colon-lost-for-quoted", many((tp.TagValuePart, "serialize", strip_filter_ws))),
+    ]
+    cache: Dict[str, Any] = {}
+
+    def body(chk: Check) -> None:
+        if "cases" not in cache:
+            w = workdir("c02st")
+            res, _ = export_cases("selftest", w, with_props=False)
+            cache["cases"] = {n: read_cases(out) for n, (r, out) in res.items()}
+        header = None
+        for name, (header, cases) in cache["cases"].items():
+            replay_cases(chk, header, cases, name, procs=4, k=5)
+        code_to_spec(chk, header, ntraces=150, depth=3)
+
+    return run_probes(PID, probes, body)
